@@ -42,3 +42,10 @@ Definition chk_list (s : sdr_state) (st : store)
   (reqs : list request) (reps : list reply) (sleeps : list N) (exp : res (list (N * list N))) : bool :=
   chk_dev s reqs reps &&
   chk_replay (list_eqb rec_eqb) (sdr_entries (S (length reps)) st) reqs reps sleeps exp.
+
+(* one of several listing generators advanced side by side on one Ipmi object: its own exchanges
+   (the harness attributes every exchange to the generator being advanced) against the stateless model;
+   the device is checked on the whole interleaved log by a separate [chk_dev] *)
+Definition chk_walk (st : store)
+  (reqs : list request) (reps : list reply) (sleeps : list N) (exp : res (list (N * list N))) : bool :=
+  chk_replay (list_eqb rec_eqb) (sdr_entries (S (length reps)) st) reqs reps sleeps exp.
